@@ -9,6 +9,8 @@ root = os.path.join(sys.argv[1] if len(sys.argv) > 1 else "/repo", "src", "bumpv
 out = {}
 out_sigs = {}
 out_names = {}
+out_consts = {}
+out_callers = {}
 for fn in sorted(os.listdir(root)):
     if not fn.endswith(".py"):
         continue
@@ -29,9 +31,31 @@ for fn in sorted(os.listdir(root)):
                 scan(getattr(st, "body", []), prefix); scan(getattr(st, "orelse", []), prefix)
     scan(tree.body)
     out[fn[:-3]] = names
+    out_consts[fn[:-3]] = sorted({t.id for st in tree.body if isinstance(st, (ast.Assign, ast.AnnAssign))
+                                  for t in (st.targets if isinstance(st, ast.Assign) else [st.target]) if isinstance(t, ast.Name)})
+    # same-module callers by plain name (for recognising a renamed-and-edited function by its call sites)
+    callers = {}
+    def scan_calls(stmts, prefix=""):
+        for st in stmts:
+            if isinstance(st, (ast.FunctionDef, ast.AsyncFunctionDef)):
+                for c in ast.walk(st):
+                    if isinstance(c, ast.Call) and isinstance(c.func, ast.Name) and c.func.id in names and c.func.id != st.name:
+                        callers.setdefault(c.func.id, set()).add(prefix + st.name)
+            elif isinstance(st, ast.ClassDef):
+                scan_calls(st.body, st.name + ".")
+            elif isinstance(st, (ast.If, ast.Try)):
+                scan_calls(getattr(st, "body", []), prefix); scan_calls(getattr(st, "orelse", []), prefix)
+            else:
+                for c in ast.walk(st):
+                    if isinstance(c, ast.Call) and isinstance(c.func, ast.Name) and c.func.id in names:
+                        callers.setdefault(c.func.id, set()).add("<module>")
+    scan_calls(tree.body)
+    out_callers[fn[:-3]] = {k: sorted(v) for k, v in callers.items()}
     out_sigs[fn[:-3]] = sigs
     out_names[fn[:-3]] = lnames
 json.dump(out, open("/verif/sa/baseline_functions.json", "w"), indent=1, sort_keys=True)
 json.dump(out_sigs, open("/verif/sa/baseline_signatures.json", "w"), indent=1, sort_keys=True)
 json.dump(out_names, open("/verif/sa/baseline_names.json", "w"), indent=1, sort_keys=True)
+json.dump(out_callers, open("/verif/sa/baseline_callers.json", "w"), indent=1, sort_keys=True)
+json.dump(out_consts, open("/verif/sa/baseline_consts.json", "w"), indent=1, sort_keys=True)
 print({k: len(v) for k, v in out.items()})
